@@ -10,20 +10,20 @@ RULE = ("spec: TLC explores Flow.tla / Parallel.tla (templates transcribed step 
         "'slow' scenario per user function); every execution's stamped events are checked by the monitor DirSys.tla")
 
 
-def directive(prop, q=(160, 100, 6), t=(800, 500, 8), par_exec=0):
+def directive(prop, q=(160, 100, 6), t=(500, 300, 8), par_exec=0):
     def check(c):
         nflow, npar, nscen = q if c.quick else t
-        rounds = 1 if c.quick else 2
+        rounds = 1
         # design level: the templates as transcribed in Flow.tla / Parallel.tla never make the monitor record a
         # violation, for every outcome / schedule / concurrency / cancellation instant of small programs
         if c.quick:
             G.spec_directive(c, *G.small_programs(c, 30, 25, max_tasks=3, max_insts=4))
         else:
-            G.spec_directive(c, *G.small_programs(c, 120, 0, max_tasks=4), name="dirbig")
-            G.spec_directive(c, *G.small_programs(c, 0, 30, max_insts=6), name="dirbigp", timeout=3400)
+            G.spec_directive(c, *G.small_programs(c, 60, 0, max_tasks=4), name="dirbig")
+            G.spec_directive(c, *G.small_programs(c, 0, 20, max_insts=5), name="dirbigp", timeout=1500)
         for r in range(rounds):
             G.pipeline(c, nflow // rounds if not c.quick else nflow, npar // rounds if not c.quick else npar, nscen,
-                       seed_off=r, par_exec=par_exec, model_traces=900 if c.quick else 3000)
+                       seed_off=r, par_exec=par_exec, model_traces=900 if c.quick else 2500)
         if prop == "C15":
             import known_probes
             known_probes.check_known(c, c.build_cff(), ("C15",))
